@@ -129,7 +129,12 @@ pub fn scenario(ctx: &mut Ctx) -> ScResult {
         }
         ev!(ctx, "  deliver {}B {}", buf.len(), hex(&buf[..buf.len().min(48)]));
         let r = if tracing_on { with_subscriber(|| receive(ctx, &buf, &opts)) } else { receive(ctx, &buf, &opts) };
-        if let Err(v) = r {
+        if let Err(mut v) = r {
+            // a parser that panics gives no verdict at all: under C02 ("accepted if and only if ...; a
+            // rejection names its cause") that is a violation in its own right, not only C01's
+            if ctx.cfg.prop == "C02" && v.property == "C01" && (v.site == "Message::from_bytes" || v.site == "Message::try_from") {
+                v = crate::core::Violation::new("C02", "verdict_given", &v.site.clone(), format!("the parser gave no verdict: {}", v.message));
+            }
             ev!(ctx, "  !! {} [{}]: {}", v.clause, v.site, v.message);
             return Err(v);
         }
